@@ -1670,7 +1670,7 @@ func c19SelfTest() error {
 }
 
 func c19(c *fw.Ctx) {
-	c.Rule("transform: seeded convex quadrilateral pairs of four families (axis-aligned rectangle, rotated rectangle, sheared parallelogram, perspective = every corner moved independently, trapezoid = keystone shapes on integer coordinates where exactly one of the sums x0-x1+x2-x3 / y0-y1+y2-y3 vanishes; both orientations, any starting corner, magnitudes 1..2000, grid-like sources), rejected unless every corner triangle holds >= 8% of the squared diameter; QuadrilateralToQuadrilateral / SquareToQuadrilateral / QuadrilateralToSquare checked through TransformPoints and TransformPointsXY on the 4 corners and 24 interior/exterior points against the projective map solved exactly (8x9 system, big.Rat), points with |denominator| < 0.2 of the corner denominators skipped. sampling: every grid dimension 1..177 (square) plus random non-square/special dimensions, images 2..307 px (noise, all-black, blocks, black/white frame), grid->image pairs of the four families fitted so that the hull of the cell centres lies inside the image (class inside) or overhangs each edge by <1 px, 1..2 px, >2 px (class overhang), or is an affine map aimed at one band x one pass (class targeted); class central: the defining square is small and in the middle of a 15..151 module grid (Aztec bull's eye / QR margin style) with a perspective destination and no restriction on the denominator - where it changes sign inside the grid only no-panic, no-read-outside-the-image and the error kind are demanded; expected bit = model pixel at floor of the exactly mapped cell centre (big.Int homogeneous arithmetic), bands [-1,0)/[n,n+1) -> index 0/n-1; direct calls of checkAndNudgePoints with 1..3 leading/trailing points in each band. distinct = distinct (quadrilateral pair, dims, image size)")
+	c.Rule("transform: seeded convex quadrilateral pairs of four families (axis-aligned rectangle, rotated rectangle, sheared parallelogram, perspective = every corner moved independently, trapezoid = keystone shapes on integer coordinates where exactly one of the sums x0-x1+x2-x3 / y0-y1+y2-y3 vanishes; both orientations, any starting corner, magnitudes 1..2000, grid-like sources), rejected unless every corner triangle holds >= 8% of the squared diameter; QuadrilateralToQuadrilateral / SquareToQuadrilateral / QuadrilateralToSquare checked through TransformPoints and TransformPointsXY on the 4 corners and 24 interior/exterior points against the projective map solved exactly (8x9 system, big.Rat), points with |denominator| < 0.2 of the corner denominators skipped. sampling: every grid dimension 1..177 (square) plus random non-square/special dimensions, images 2..307 px (noise, all-black, blocks, black/white frame), grid->image pairs of the four families fitted so that the hull of the cell centres lies inside the image (class inside) or overhangs each edge by <1 px, 1..2 px, >2 px (class overhang), or is an affine map aimed at one band x one pass (class targeted); class central: the defining square is small and in the middle of a 15..151 module grid (Aztec bull's eye / QR margin style) with a perspective destination and no restriction on the denominator - where it changes sign inside the grid only no-panic, no-read-outside-the-image and the error kind are demanded; expected bit = model pixel at floor of the exactly mapped cell centre (big.Int homogeneous arithmetic), bands [-1,0)/[n,n+1) -> index 0/n-1; every setup goes through SampleGrid, SampleGridWithTransform and a second SampleGridWithTransform call on the same transform object (which must still map four probe points to the same places); direct calls of checkAndNudgePoints with 1..3 leading/trailing points in each band. distinct = distinct (quadrilateral pair, dims, image size)")
 	c.Assume("don't-care: coordinates in (-2,-1) may be nudged to 0 or refused (DESIGN C19); cells whose exact centre is within 1e-6*max(1,|coord|) of a pixel boundary are not asserted; calls with a cell within that margin of the -2 / n+1 limits have no demanded outcome; transforms whose denominator changes sign or falls below 15% of its maximum inside the grid rectangle are not generated (a straight grid row then maps to a straight monotone run of points, which is what makes checking only the row ends sufficient); checkAndNudgePoints is only charged for points at the ends of the list; after checkAndNudgePoints only the pixel index that SampleGrid derives from each coordinate (int(v), i.e. a value left in (-1,0) counts as index 0) is demanded, not its exact value; the hook counts BitMatrix.Get calls with out-of-range coordinates: such a call is charged as 'pixel outside the image read' although Get answers false without touching memory")
 	nT := c.Pick(400, 6000)
 	for i := 0; i < nT; i++ {
